@@ -14,19 +14,26 @@
   the equality is stated under the regenerated precondition and the precondition is proved
   equivalent to the expected one (`…_pre_iff`), so a changed guard breaks the build as well.
 
-  Not covered here (hand-written machine uses a different state encoding, or the Go body is
-  outside the translated fragment — see `skipped_names` and docs/opgen.md):
-   * SkipLast (ring buffer + size + index vs FIFO list), TakeLast (slice re-slicing and an index
-     loop vs list), Pairwise (`count`/`last T` vs `Option α`; needs a zero value of a type
-     parameter), ThrowIfEmpty (atomic `uint64` counter vs `Bool`), Dematerialize (delegates to a
-     helper), ToMap (map with values), Cast (type assertion).
+  Where the natural state encoding of the Go code differs from the hand-written machine's (ring
+  buffer vs FIFO, counter vs flag, zero value vs `Option`, float accumulator vs exact integer sum,
+  no index vs index), the regenerated machine keeps the Go encoding and is proved to SIMULATE the
+  hand-written machine (`Machine.Sim`, RoProofs/OpsGen.lean), which gives the same trace, drops,
+  steps and gates for every raw script, mode and subscription context (`Machine.Sim.run`), so the
+  specification theorems transfer (`…_spec_gen`).
+
+  Still outside the fragment although a hand-written machine exists: Dematerialize (delegates to
+  helpers that take function values), TimeInterval / Timestamp (read the clock), the `Tap` effect
+  log (`tapM`'s state; `tap_sim` covers the stream). See `skipped_names` and docs/opgen.md.
 -/
 import RoProofs.OpsGen
 import RoProofs.Ops.Basic
+import RoProofs.Ops.FilterSpecs
+import RoProofs.Ops.TransformSpecs
+import RoProofs.Ops.MoreSpecs
 import RoGen.OpsGen
 namespace Ro.C04gen
 open Ro
-variable {α β κ : Type}
+variable {α β κ φ δ τ ι : Type}
 
 /-! ### operator_filter.go -/
 
@@ -137,9 +144,9 @@ theorem toSlice_gen : RoGen.Ops.toSliceM (α := α) = Ro.toSliceM := by
 theorem onErrorReturn_gen (v : α) : RoGen.Ops.onErrorReturnM v = Ro.onErrorReturnM v := by
   machine_eq RoGen.Ops.onErrorReturnM Ro.onErrorReturnM
 
-/-- `ContextMapI` has no machine of its own in RoModel/Ops: it is `MapIWithContext` with a
-    projection that replaces the context and keeps the value -/
-theorem contextMapI_gen (project : Ctx → Nat → Ctx) :
+/-- `ContextMapI` is `MapIWithContext` with a projection that replaces the context and keeps the
+    value (its own machine `contextMapM` of RoModel/Ops/More.lean: `contextMapI_gen` below) -/
+theorem contextMapI_as_map (project : Ctx → Nat → Ctx) :
     RoGen.Ops.contextMapIM (α := α) project = Ro.mapM (fun c v i => (project c i, v)) := by
   machine_eq RoGen.Ops.contextMapIM Ro.mapM
 
@@ -179,6 +186,169 @@ theorem clamp_gen (lo hi : Int) (_h : RoGen.Ops.clampM_pre lo hi) : RoGen.Ops.cl
 theorem reduce_gen (f : Ctx → β → α → Nat → Ctx × β) (seed : β) : RoGen.Ops.reduceIWithContextM f seed = Ro.reduceM f seed := by
   machine_eq RoGen.Ops.reduceIWithContextM Ro.reduceM
 
+
+/-! ### operators added to the fragment later: further equalities (RoModel/Ops/More.lean) -/
+
+theorem contextMapI_gen (project : Ctx → Nat → Ctx) : RoGen.Ops.contextMapIM (α := α) project = Ro.contextMapM project := by
+  machine_eq RoGen.Ops.contextMapIM Ro.contextMapM
+
+theorem contextReset_gen (nc : Ctx) :
+    RoGen.Ops.contextResetM (α := α) nc = Ro.contextResetM (if nc.isNil then Ctx.bg else nc) := by
+  machine_eq RoGen.Ops.contextResetM Ro.contextResetM
+
+theorem contextReset_gen_nonnil (nc : Ctx) (h : nc.isNil = false) : RoGen.Ops.contextResetM (α := α) nc = Ro.contextResetM nc := by
+  rw [contextReset_gen, h]; rfl
+
+theorem contextWithValue_gen (k v : ι) (wv : Ctx → ι → ι → Ctx) (m : Nat) (h : ∀ c, wv c k v = c.tag m) :
+    RoGen.Ops.contextWithValueM (α := α) k v wv = Ro.ctxWithValueM m := by
+  apply Machine.ext' <;> intros <;> simp [RoGen.Ops.contextWithValueM, Ro.ctxWithValueM, h]
+
+theorem contextWithValue_up_gen (k v : ι) (wv : Ctx → ι → ι → Ctx) (m : Nat) (h : ∀ c, wv c k v = c.tag m) (sub : Ctx) :
+    RoGen.Ops.contextWithValueM_up k v wv sub = Ro.ctxWithValueUp m sub := by
+  simp [RoGen.Ops.contextWithValueM_up, Ro.ctxWithValueUp, h]
+
+theorem cast_gen (ok : α → Option β) (err : Err) : RoGen.Ops.castM ok err = Ro.castM ok err := by
+  machine_eq RoGen.Ops.castM Ro.castM
+
+theorem toMap_gen [DecidableEq κ] (kv : Ctx → α → Nat → κ × β) : RoGen.Ops.toMapIWithContextM kv = Ro.toMapM kv := by
+  machine_eq RoGen.Ops.toMapIWithContextM Ro.toMapM
+
+theorem serialize_gen : RoGen.Ops.serializeM (α := α) = Ro.idM := by
+  machine_eq RoGen.Ops.serializeM Ro.idM
+theorem delayEach_gen (d : δ) : RoGen.Ops.delayEachM (α := α) d = Ro.idM := by
+  machine_eq RoGen.Ops.delayEachM Ro.idM
+
+
+/-! ### refinements: the regenerated machine keeps the Go code's own state encoding and SIMULATES
+    the hand-written machine (`Machine.Sim`): same emissions from related states, hence
+    (`Machine.Sim.run`) the same trace, drops, steps and gates for every raw script, source mode and
+    subscription context — so the C04 specification theorems transfer (`…_spec_gen`). -/
+
+theorem contextWithTimeout_sim (d : δ) (wt : Ctx → δ → Ctx) :
+    (RoGen.Ops.contextWithTimeoutM (α := α) d wt).Sim (fun _ _ => True) (Ro.contextMapM (fun c _ => wt c d)) := by
+  sim_any RoGen.Ops.contextWithTimeoutM Ro.contextMapM
+theorem contextWithDeadline_sim (d : τ) (wd : Ctx → τ → Ctx) :
+    (RoGen.Ops.contextWithDeadlineM (α := α) d wd).Sim (fun _ _ => True) (Ro.contextMapM (fun c _ => wd c d)) := by
+  sim_any RoGen.Ops.contextWithDeadlineM Ro.contextMapM
+theorem round_sim (f : φ → φ) : (RoGen.Ops.roundM f).Sim (fun _ _ => True) (Ro.mapM (fun c v _ => (c, f v))) := by
+  sim_any RoGen.Ops.roundM Ro.mapM
+theorem abs_sim (f : φ → φ) : (RoGen.Ops.absM f).Sim (fun _ _ => True) (Ro.mapM (fun c v _ => (c, f v))) := by
+  sim_any RoGen.Ops.absM Ro.mapM
+theorem floor_sim (f : φ → φ) : (RoGen.Ops.floorM f).Sim (fun _ _ => True) (Ro.mapM (fun c v _ => (c, f v))) := by
+  sim_any RoGen.Ops.floorM Ro.mapM
+theorem ceil_sim (f : φ → φ) : (RoGen.Ops.ceilM f).Sim (fun _ _ => True) (Ro.mapM (fun c v _ => (c, f v))) := by
+  sim_any RoGen.Ops.ceilM Ro.mapM
+theorem trunc_sim (f : φ → φ) : (RoGen.Ops.truncM f).Sim (fun _ _ => True) (Ro.mapM (fun c v _ => (c, f v))) := by
+  sim_any RoGen.Ops.truncM Ro.mapM
+theorem tap_sim (n : Ctx → α → Unit) (e : Ctx → Err → Unit) (c : Ctx → Unit) (sel : Notif α → Bool) :
+    (RoGen.Ops.tapWithContextM n e c).Sim (fun _ _ => True) (Ro.tapM sel) := by
+  sim_any RoGen.Ops.tapWithContextM Ro.tapM
+
+theorem pairwise_sim [Inhabited α] :
+    (RoGen.Ops.pairwiseM (α := α)).Sim (fun s o => (s.1 = 0 ∧ o = none) ∨ (0 < s.1 ∧ o = some s.2)) Ro.pairwiseM := by
+  refine ⟨Or.inl ⟨rfl, rfl⟩, rfl, fun s1 s2 c h => ⟨h, rfl⟩, fun s1 s2 c v h => ?_, fun s1 s2 c e h => ⟨h, rfl⟩, fun s1 s2 c h => ⟨h, rfl⟩⟩
+  simp only [RoGen.Ops.pairwiseM, Ro.pairwiseM]
+  rcases h with ⟨h0, rfl⟩ | ⟨h0, rfl⟩
+  · simp [h0]
+  · simp [h0]
+
+theorem throwIfEmpty_sim (e : Err) :
+    (RoGen.Ops.throwIfEmptyM (α := α) e).Sim (fun n b => b = decide (0 < n)) (Ro.throwIfEmptyM e) := by
+  refine ⟨rfl, rfl, fun s1 s2 c h => ⟨h, rfl⟩, fun s1 s2 c v h => ?_, fun s1 s2 c e h => ⟨h, rfl⟩, fun s1 s2 c h => ?_⟩
+  · simp [RoGen.Ops.throwIfEmptyM, Ro.throwIfEmptyM]
+  · subst h
+    simp only [RoGen.Ops.throwIfEmptyM, Ro.throwIfEmptyM]
+    by_cases h0 : s1 = 0 <;> simp [h0]
+
+theorem average_sim (ofInt : Int → φ) (add : φ → φ → φ) (nan : φ) (ofNat : Nat → φ) (div : φ → φ → φ)
+    (hadd : ∀ a b, add (ofInt a) (ofInt b) = ofInt (a + b)) :
+    (RoGen.Ops.averageM ofInt add nan ofNat div).Sim (fun s1 s2 => s1.1 = ofInt s2.1 ∧ s1.2 = s2.2)
+      (Ro.averageM (fun s n => div (ofInt s) (ofNat n)) nan) := by
+  refine ⟨⟨rfl, rfl⟩, rfl, fun s1 s2 c h => ⟨h, rfl⟩, fun s1 s2 c v h => ?_, fun s1 s2 c e h => ⟨h, rfl⟩, fun s1 s2 c h => ?_⟩
+  · simp [RoGen.Ops.averageM, Ro.averageM, h.1, h.2, hadd]
+  · simp only [RoGen.Ops.averageM, Ro.averageM]
+    rw [h.1, h.2]
+    by_cases h0 : s2.2 = 0 <;> simp [h0, h]
+/-- `TakeLast`: the Go buffer *is* the hand-written list; the index only tells whether it is full -/
+theorem takeLast_pre_iff (count : Nat) : RoGen.Ops.takeLastM_pre count ↔ 0 < count := by
+  simp [RoGen.Ops.takeLastM_pre]; omega
+theorem skipLast_pre_iff (count : Nat) : RoGen.Ops.skipLastM_pre count ↔ 0 < count := by
+  simp [RoGen.Ops.skipLastM_pre]; omega
+
+theorem takeLast_sim [Inhabited α] (count : Nat) (hc : 0 < count) :
+    (RoGen.Ops.takeLastM (α := α) count).Sim (fun s q => s.1 = q ∧ q.length = min s.2 count) (Ro.takeLastM count) := by
+  refine ⟨⟨rfl, by simp [RoGen.Ops.takeLastM, Ro.takeLastM]⟩, rfl, fun s1 s2 c h => ⟨h, rfl⟩, fun s1 s2 c v h => ?_, fun s1 s2 c e h => ⟨h, rfl⟩, fun s1 s2 c h => ?_⟩
+  · obtain ⟨h1, h2⟩ := h
+    simp only [RoGen.Ops.takeLastM, Ro.takeLastM]
+    subst h1
+    by_cases hfull : s1.2 ≥ count
+    · have : s1.1.length ≥ count := by omega
+      simp [hfull, this]; omega
+    · have : ¬ s1.1.length ≥ count := by omega
+      simp [hfull, this]; omega
+  · obtain ⟨h1, h2⟩ := h
+    simp only [RoGen.Ops.takeLastM, Ro.takeLastM]
+    subst h1
+    refine ⟨⟨rfl, h2⟩, ?_⟩
+    have hl : min count s1.2 = s1.1.length := by omega
+    rw [hl]
+    congr 1
+    exact map_range_getD s1.1 (Ctx.nil, default) (fun p => Notif.next p.1 p.2)
+
+/-- the relation between `SkipLast`'s ring buffer (buffer, size, index) and the FIFO `q` of the
+    hand-written machine: while filling, `q` is the written prefix; once full, `q` is the buffer
+    rotated to start at `index` -/
+def skipLastRel (count : Nat) (s : List (Ctx × α) × Nat × Nat) (q : List (Ctx × α)) : Prop :=
+  s.1.length = count ∧ s.2.2 < count ∧ q.length = s.2.1 ∧
+    ((s.2.1 < count ∧ s.2.2 = s.2.1 ∧ q = s.1.take s.2.1) ∨ (s.2.1 = count ∧ q = s.1.drop s.2.2 ++ s.1.take s.2.2))
+
+theorem skipLast_sim [Inhabited α] (count : Nat) (hc : 0 < count) :
+    (RoGen.Ops.skipLastM (α := α) count).Sim (skipLastRel count) (Ro.skipLastM count) := by
+  refine ⟨?_, rfl, fun s1 s2 c h => ⟨h, rfl⟩, fun s1 s2 c v h => ?_, fun s1 s2 c e h => ⟨h, rfl⟩, fun s1 s2 c h => ⟨h, rfl⟩⟩
+  · simp [skipLastRel, RoGen.Ops.skipLastM, Ro.skipLastM, hc]
+  · obtain ⟨buf, size, idx⟩ := s1
+    obtain ⟨hlen, hidx, hq, hcase⟩ := h
+    simp only at hlen hidx hq hcase
+    simp only [RoGen.Ops.skipLastM, Ro.skipLastM]
+    rcases hcase with ⟨hs, hi, hqe⟩ | ⟨hs, hqe⟩
+    · -- filling
+      subst hi
+      have hql : s2.length < count := by omega
+      simp only [hs, hql, if_true]
+      refine ⟨⟨by simp [hlen], Nat.mod_lt _ hc, by simp [hq], ?_⟩, by first | rfl | trivial⟩
+      by_cases hnext : idx + 1 < count
+      · left
+        refine ⟨hnext, Nat.mod_eq_of_lt hnext, ?_⟩
+        simp only []
+        rw [take_succ_set _ _ _ (by omega), hqe]
+      · right
+        have he : idx + 1 = count := by omega
+        refine ⟨he, ?_⟩
+        simp only []
+        rw [he, Nat.mod_self]
+        simp only [List.drop_zero, List.take_zero, List.append_nil]
+        rw [set_last _ _ _ (by omega), hqe]
+    · -- full
+      subst hs
+      have hql : ¬ s2.length < size := by omega
+      have hsz : ¬ size < size := by omega
+      simp only [hsz, hql, if_false]
+      rw [drop_eq_getD_cons buf idx (Ctx.nil, default) (by omega)] at hqe
+      subst hqe
+      simp only [List.cons_append]
+      refine ⟨⟨by simp [hlen], Nat.mod_lt _ hc, by simp at hq ⊢; omega, ?_⟩, by first | rfl | trivial⟩
+      right
+      refine ⟨rfl, ?_⟩
+      simp only []
+      by_cases hnext : idx + 1 < size
+      · rw [Nat.mod_eq_of_lt hnext, drop_succ_set, take_succ_set _ _ _ (by omega)]
+        simp
+      · have he : idx + 1 = size := by omega
+        rw [he, Nat.mod_self]
+        simp only [List.drop_zero, List.take_zero, List.append_nil]
+        rw [set_last _ _ _ (by omega), List.drop_of_length_le (by omega)]
+        simp
+
 /-! ### what the equalities buy: the C04 theorems hold for the regenerated machines -/
 
 theorem take_spec_gen (n : Nat) (h : RoGen.Ops.takeM_pre n) (mode : SrcMode) (sub : Ctx) (raw : List (Notif α)) :
@@ -188,6 +358,49 @@ theorem take_spec_gen (n : Nat) (h : RoGen.Ops.takeM_pre n) (mode : SrcMode) (su
 theorem map_spec_gen (f : Ctx → α → Nat → Ctx × β) (mode : SrcMode) (sub : Ctx) (raw : List (Notif α)) :
     (runOp (RoGen.Ops.mapIWithContextM f) mode sub raw).out = Spec.map f (values raw) (ending raw) := by
   rw [map_gen f]; exact map_spec f mode sub raw
+
+
+/-! ### what the refinements buy: the specification theorems of the hand-written machines hold for
+    the regenerated ones (under the regenerated parameter preconditions) -/
+
+theorem skipLast_spec_gen [Inhabited α] (n : Nat) (h : RoGen.Ops.skipLastM_pre n) (mode : SrcMode) (sub : Ctx) (raw : List (Notif α)) :
+    (runOp (RoGen.Ops.skipLastM n) mode sub raw).out = Spec.skipLast n (values raw) (ending raw) := by
+  rw [(skipLast_sim n ((skipLast_pre_iff n).1 h)).out]; exact skipLast_spec n ((skipLast_pre_iff n).1 h) mode sub raw
+
+theorem takeLast_spec_gen [Inhabited α] (n : Nat) (h : RoGen.Ops.takeLastM_pre n) (mode : SrcMode) (sub : Ctx) (raw : List (Notif α)) :
+    (runOp (RoGen.Ops.takeLastM n) mode sub raw).out = Spec.takeLast n (values raw) (ending raw) := by
+  rw [(takeLast_sim n ((takeLast_pre_iff n).1 h)).out]; exact takeLast_spec n ((takeLast_pre_iff n).1 h) mode sub raw
+
+theorem pairwise_spec_gen [Inhabited α] (mode : SrcMode) (sub : Ctx) (raw : List (Notif α)) :
+    (runOp (RoGen.Ops.pairwiseM (α := α)) mode sub raw).out = Spec.pairwise (values raw) (ending raw) := by
+  rw [pairwise_sim.out]; exact pairwise_spec mode sub raw
+
+theorem throwIfEmpty_spec_gen (err : Err) (mode : SrcMode) (sub : Ctx) (raw : List (Notif α)) :
+    (runOp (RoGen.Ops.throwIfEmptyM (α := α) err) mode sub raw).out = Spec.throwIfEmpty err (values raw) (ending raw) := by
+  rw [(throwIfEmpty_sim err).out]; exact throwIfEmpty_spec err mode sub raw
+
+/-- `Average`: floats are uninterpreted; the hand-written machine sums integers exactly, so the
+    transfer needs float addition to be exact on the integers summed (`hadd`) -/
+theorem average_spec_gen (ofInt : Int → φ) (add : φ → φ → φ) (nan : φ) (ofNat : Nat → φ) (div : φ → φ → φ)
+    (hadd : ∀ a b, add (ofInt a) (ofInt b) = ofInt (a + b)) (mode : SrcMode) (sub : Ctx) (raw : List (Notif Int)) :
+    (runOp (RoGen.Ops.averageM ofInt add nan ofNat div) mode sub raw).out
+      = Spec.average (fun s n => div (ofInt s) (ofNat n)) nan (values raw) (ending raw) := by
+  rw [(average_sim ofInt add nan ofNat div hadd).out]; exact average_spec _ nan mode sub raw
+
+theorem cast_spec_gen (ok : α → Option β) (err : Err) (mode : SrcMode) (sub : Ctx) (raw : List (Notif α)) :
+    (runOp (RoGen.Ops.castM ok err) mode sub raw).out = (runOp (Ro.castM ok err) mode sub raw).out := by
+  rw [cast_gen]
+
+/-- the whole observable run state agrees, not only the trace: refused notifications and steps too -/
+theorem skipLast_run_gen [Inhabited α] (n : Nat) (hn : 0 < n) (mode : SrcMode) (sub : Ctx) (raw : List (Notif α)) :
+    (runOp (RoGen.Ops.skipLastM n) mode sub raw).drops = (runOp (Ro.skipLastM n) mode sub raw).drops ∧
+    (runOp (RoGen.Ops.skipLastM n) mode sub raw).steps = (runOp (Ro.skipLastM n) mode sub raw).steps :=
+  ⟨((skipLast_sim n hn).run mode sub raw).drops, ((skipLast_sim n hn).run mode sub raw).steps⟩
+
+example : (runOp (RoGen.Ops.skipLastM 2) .sync {} [.next {} (1 : Int), .next {} 2, .next {} 3, .complete {}]).out
+    = [.next {} 1, .complete {}] := by decide
+example : (runOp (RoGen.Ops.takeLastM 2) .sync {} [.next {} (1 : Int), .next {} 2, .next {} 3, .complete {}]).out
+    = [.next {} 2, .next {} 3, .complete {}] := by decide
 
 -- non-vacuity: the regenerated machines compute
 example : (runOp (RoGen.Ops.takeM 2) .sync {} [.next {} (1 : Int), .next {} 2, .next {} 3, .complete {}]).out
@@ -201,34 +414,38 @@ example : (runOp (RoGen.Ops.skipM 1) .hot {} [.next {} (1 : Int), .next {} 2, .e
     code change (or a changed guard) breaks one of these. -/
 
 theorem translated_names : RoGen.Ops.translated =
-    ["StartWith", "EndWith", "AllIWithContext", "ContainsIWithContext", "FindIWithContext",
-     "DefaultIfEmptyWithContext", "ContextMapI", "OnErrorReturn", "FilterIWithContext", "Distinct",
-     "DistinctByWithContext", "IgnoreElements", "Skip", "SkipWhileIWithContext", "Take",
-     "TakeWhileIWithContext", "Head", "Tail", "FirstIWithContext", "LastIWithContext", "ElementAt",
-     "ElementAtOrDefault", "Count", "Sum", "Min", "Max", "Clamp", "ReduceIWithContext", "ToSlice",
-     "MapIWithContext", "MapTo", "MapErrIWithContext", "Flatten", "ScanIWithContext", "BufferWithCount",
-     "TapWithContext", "TapOnSubscribeWithContext", "TapOnFinalize", "Materialize"] := by decide
+    ["StartWith", "EndWith", "Pairwise", "AllIWithContext", "ContainsIWithContext", "FindIWithContext",
+     "DefaultIfEmptyWithContext", "ContextWithValue", "ContextWithTimeout", "ContextWithDeadline",
+     "ContextReset", "ContextMapI", "OnErrorReturn", "ThrowIfEmpty", "FilterIWithContext",
+     "Distinct", "DistinctByWithContext", "IgnoreElements", "Skip", "SkipWhileIWithContext",
+     "SkipLast", "Take", "TakeWhileIWithContext", "TakeLast", "Head", "Tail", "FirstIWithContext",
+     "LastIWithContext", "ElementAt", "ElementAtOrDefault", "Average", "Count", "Sum", "Round",
+     "Min", "Max", "Clamp", "Abs", "Floor", "Ceil", "Trunc", "ReduceIWithContext", "ToSlice",
+     "ToMapIWithContext", "MapIWithContext", "MapTo", "MapErrIWithContext", "Flatten", "Cast",
+     "ScanIWithContext", "BufferWithCount", "TapWithContext", "TapOnSubscribeWithContext",
+     "TapOnFinalize", "DelayEach", "Materialize", "Serialize"] := by decide
 
 theorem skipped_names : RoGen.Ops.skipped.map (·.1) =
-    ["MergeAll", "MergeMapIWithContext", "CombineLatestWith1", "CombineLatestWith2", "CombineLatestWith3",
-     "CombineLatestWith4", "CombineLatestAll", "ConcatAll", "Pairwise", "RaceWith", "ZipWith1", "ZipWith2",
-     "ZipWith3", "ZipWith4", "ZipWith5", "ZipAll", "SequenceEqual", "ShareWithConfig", "ContextWithValue",
-     "ContextWithTimeout", "ContextWithDeadline", "ContextReset", "ThrowOnContextCancel", "Catch",
-     "OnErrorResumeNextWith", "RetryWithConfig", "ThrowIfEmpty", "DoWhileIWithContext", "WhileIWithContext",
-     "SkipLast", "SkipUntil", "TakeLast", "TakeUntil", "Average", "Round", "Abs", "Floor", "Ceil",
+    ["MergeAll", "MergeMapIWithContext", "CombineLatestWith1", "CombineLatestWith2",
+     "CombineLatestWith3", "CombineLatestWith4", "CombineLatestAll", "ConcatAll", "RaceWith",
+     "ZipWith1", "ZipWith2", "ZipWith3", "ZipWith4", "ZipWith5", "ZipAll", "SequenceEqual",
+     "ShareWithConfig", "ThrowOnContextCancel", "Catch", "OnErrorResumeNextWith", "RetryWithConfig",
+     "DoWhileIWithContext", "WhileIWithContext", "SkipUntil", "TakeUntil",
      "ceilWithInfiniteNegativePrecision", "floorWithInfiniteNegativePrecision", "precisionRound",
-     "roundWithLargePositivePrecision", "roundWithLargeNegativePrecision", "Trunc", "ToMapIWithContext",
-     "ToChannel", "FlatMapIWithContext", "Cast", "GroupByIWithContext", "BufferWhen", "BufferWithTimeOrCount",
-     "WindowWhen", "SampleWhen", "ThrottleWhen", "ThrottleTime", "TimeInterval", "Timestamp", "Delay",
-     "DelayEach", "RepeatWith", "Timeout", "Dematerialize", "detachOn", "Serialize"] := by decide
+     "roundWithLargePositivePrecision", "roundWithLargeNegativePrecision", "ToChannel",
+     "FlatMapIWithContext", "GroupByIWithContext", "BufferWhen", "BufferWithTimeOrCount",
+     "WindowWhen", "SampleWhen", "ThrottleWhen", "ThrottleTime", "TimeInterval", "Timestamp",
+     "Delay", "RepeatWith", "Timeout", "Dematerialize", "detachOn"] := by decide
 
 theorem guards_as_expected : RoGen.Ops.guards =
     [("Skip", [("panic", "count < 0")]),
-     ("Take", [("panic", "count < 0"), ("empty", "count == 0")]),
-     ("ElementAt", [("panic", "nth < 0")]),
-     ("ElementAtOrDefault", [("panic", "nth < 0")]),
-     ("Clamp", [("panic", "lower > upper")]),
-     ("BufferWithCount", [("panic", "size < 1")])] := by decide
+      ("SkipLast", [("panic", "count < 1")]),
+      ("Take", [("panic", "count < 0"), ("empty", "count == 0")]),
+      ("TakeLast", [("panic", "count < 0"), ("empty", "count == 0")]),
+      ("ElementAt", [("panic", "nth < 0")]),
+      ("ElementAtOrDefault", [("panic", "nth < 0")]),
+      ("Clamp", [("panic", "lower > upper")]),
+      ("BufferWithCount", [("panic", "size < 1")])] := by decide
 
 end Ro.C04gen
 
@@ -265,7 +482,7 @@ end Ro.C04gen
 #print axioms Ro.C04gen.materialize_gen
 #print axioms Ro.C04gen.toSlice_gen
 #print axioms Ro.C04gen.onErrorReturn_gen
-#print axioms Ro.C04gen.contextMapI_gen
+#print axioms Ro.C04gen.contextMapI_as_map
 #print axioms Ro.C04gen.all_gen
 #print axioms Ro.C04gen.contains_gen
 #print axioms Ro.C04gen.find_gen
@@ -277,6 +494,37 @@ end Ro.C04gen
 #print axioms Ro.C04gen.clamp_pre_iff
 #print axioms Ro.C04gen.clamp_gen
 #print axioms Ro.C04gen.reduce_gen
+#print axioms Ro.C04gen.contextMapI_gen
+#print axioms Ro.C04gen.contextReset_gen
+#print axioms Ro.C04gen.contextReset_gen_nonnil
+#print axioms Ro.C04gen.contextWithValue_gen
+#print axioms Ro.C04gen.contextWithValue_up_gen
+#print axioms Ro.C04gen.cast_gen
+#print axioms Ro.C04gen.toMap_gen
+#print axioms Ro.C04gen.serialize_gen
+#print axioms Ro.C04gen.delayEach_gen
+#print axioms Ro.C04gen.contextWithTimeout_sim
+#print axioms Ro.C04gen.contextWithDeadline_sim
+#print axioms Ro.C04gen.round_sim
+#print axioms Ro.C04gen.abs_sim
+#print axioms Ro.C04gen.floor_sim
+#print axioms Ro.C04gen.ceil_sim
+#print axioms Ro.C04gen.trunc_sim
+#print axioms Ro.C04gen.tap_sim
+#print axioms Ro.C04gen.pairwise_sim
+#print axioms Ro.C04gen.throwIfEmpty_sim
+#print axioms Ro.C04gen.average_sim
+#print axioms Ro.C04gen.takeLast_pre_iff
+#print axioms Ro.C04gen.skipLast_pre_iff
+#print axioms Ro.C04gen.takeLast_sim
+#print axioms Ro.C04gen.skipLast_sim
+#print axioms Ro.C04gen.skipLast_spec_gen
+#print axioms Ro.C04gen.takeLast_spec_gen
+#print axioms Ro.C04gen.pairwise_spec_gen
+#print axioms Ro.C04gen.throwIfEmpty_spec_gen
+#print axioms Ro.C04gen.average_spec_gen
+#print axioms Ro.C04gen.cast_spec_gen
+#print axioms Ro.C04gen.skipLast_run_gen
 #print axioms Ro.C04gen.take_spec_gen
 #print axioms Ro.C04gen.map_spec_gen
 #print axioms Ro.C04gen.translated_names
